@@ -9,7 +9,7 @@ def spec(tier):
     obs = [XH("G.generation", F, "generation", 250 if q else 900, path_timeout=120,
               what="link generation counter: real serve_onSave from link_version = v with the extending type of another file last resolved at version w; v, w symbolic ints (range of w = what the real counter can have taken: probed from the code - wrapping or monotone); inherited members must come from the new parent; a counterexample is confirmed by a concrete history of ~1000 edits before it is reported")]
     obs += parts("H.history", F, "history", 16, T, path_timeout=300,
-                 what="7-file workspace (module with type + interface + procedure; module using it with EXTENDS across 3 files / declared variables / component access / type-bound link / two INCLUDEs, one through './'; a submodule; the include files), histories of 2 (quick) / 3 (thorough) events out of 31 (query everything, edit to one of 5 versions of the module or 2 of an include file without saving, ranged edit, save a version, close, delete, re-create), all final versions, ending either with one save of exactly the files that changed (ascending / descending order) or (thorough) with every file saved twice: the dump (completion after v% and w%, 7 definitions + hovers, references, diagnostics, document and workspace symbols) equals a freshly started server's")
+                 what="7-file workspace (module with type + interface + procedure; module using it with EXTENDS across 3 files / declared variables / component access / type-bound link / two INCLUDEs, one through './'; a submodule; the include files), histories of 2 (quick) / 3 (thorough; third event from every second entry) events out of 31 (query everything, edit to one of 5 versions of the module or 2 of an include file without saving, ranged edit, save a version, close, delete, re-create), all final versions, ending either with one save of exactly the files that changed (ascending / descending order) or (thorough) with every file saved twice: the dump (completion after v% and w%, 7 definitions + hovers, references, diagnostics, document and workspace symbols) equals a freshly started server's")
     obs += parts("I.init_orders", F, "init_orders", 16, T, path_timeout=300,
                  what="fresh start: the real workspace_init (directory walk and process pool replaced by stand-ins) over the 7 files in all 7! (thorough) / 840 evenly spread (quick) enumeration orders x 5 x 2 versions gives the same dump as in ascending order")
     obs += [XH("S.scenarios", F, "scenarios", 250 if q else 900, path_timeout=200,
